@@ -75,7 +75,7 @@ func runC09(r *ev.Run) {
 	}
 
 	classes := universe.ThreeMan()
-	classes = append(classes, parseClasses(seedFour(r, 0, 3, 16))...)
+	classes = append(classes, parseClasses(seedFour(r, 0, 2, 16))...)
 	r.Set("classes", classNames(classes))
 	type worker struct{ ld eng.Loader }
 	var sc atomic.Int64
@@ -138,6 +138,23 @@ func runC09(r *ev.Run) {
 				staleN.Add(1)
 				handle(ws[item].ld.Load(p), p)
 				// and the colour-flipped twin (White's pawn directions and masks)
+				m := p.Mirror()
+				handle(ws[item].ld.Load(&m), &m)
+			})
+		})
+	}
+	// every 4-man class with the defending king confined to the same region (both colours by mirroring)
+	cornerFour := ev.Pick(r, []string{"KQkr", "KRkr", "KRkb", "KRkn", "KBkn", "KQkb", "KQkn", "Kkrr", "Kkbn", "Kkbp", "Kknp", "KPkb"}, fourMan)
+	for _, name := range cornerFour {
+		c := universe.ParseClass(name)
+		ws := make([]worker, 64)
+		ev.Parallel(64, func(wi, item int) {
+			if r.Expired() {
+				return
+			}
+			universe.EnumShard(c, universe.Opts{Shard: item, NoRights: true, NoEP: true, BlackKingIn: cornerish, OnlyStm: 2}, func(p *refchess.Pos) {
+				staleN.Add(1)
+				handle(ws[item].ld.Load(p), p)
 				m := p.Mirror()
 				handle(ws[item].ld.Load(&m), &m)
 			})
@@ -240,11 +257,21 @@ func c09EvasionFamily(r *ev.Run, handle func(b *board.Board, p *refchess.Pos)) i
 			m := p.Mirror()
 			handle(ld.Load(&m), &m)
 		}
-		for _, csq := range j.c.line {
+		for li, csq := range j.c.line {
 			if p.Sq[csq] != 0 {
 				break
 			}
-			for _, ck := range []int8{-3, -5, -4} {
+			for _, ck := range []int8{-3, -5, -4, -13, -15, -14} {
+				// values below -10: the same checker backed by a second slider directly behind it (a battery)
+				backer := 0
+				if ck < -10 {
+					if li+1 >= len(j.c.line) || p.Sq[j.c.line[li+1]] != 0 {
+						continue
+					}
+					backer = j.c.line[li+1]
+					ck += 10
+					p.Sq[backer] = -5
+				}
 				p.Sq[csq] = ck
 				for bk := 0; bk < 64; bk++ {
 					if p.Sq[bk] != 0 {
@@ -268,6 +295,9 @@ func c09EvasionFamily(r *ev.Run, handle func(b *board.Board, p *refchess.Pos)) i
 					p.Sq[bk] = 0
 				}
 				p.Sq[csq] = 0
+				if backer != 0 {
+					p.Sq[backer] = 0
+				}
 			}
 		}
 	})
